@@ -185,6 +185,26 @@ def main(tier):
                              "du_in_valid": du in vu, "scalar_built": s_[0] == "ok", "scalar_valid": s_[0] == "ok" and bool(s_[1].IsValid()),
                              "scalar_unit_is_du": s_[0] == "ok" and s_[1].GetUnit() == du,
                              "check_default": P.outcome(db.CheckCategoryUnit, "k", du)[0] == "ok"})
+                # a category derived from this one (from_category) with some of the limits overridden: accepted only with a default
+                # value inside the limits it ends up with
+                if valid is None:
+                    for dv in (None, 3.0):
+                        kw0 = dict(kw, default_value=dv) if dv is not None else dict(kw)
+                        if P.outcome(lambda: db.AddCategory("k", "Q", override=True, **kw0))[0] != "ok":
+                            continue
+                        pdv = db.GetCategoryInfo("k").default_value
+                        for over in ({"min_value": pdv + 1.0}, {"max_value": pdv - 1.0}, {"min_value": pdv - 1.0}, {"max_value": pdv + 1.0},
+                                     {"min_value": pdv + 1.0, "max_value": pdv + 5.0}, {"min_value": pdv, "is_min_exclusive": True},
+                                     {"max_value": pdv, "is_max_exclusive": True}, {}):
+                            o2 = P.outcome(lambda: db.AddCategory("k2", from_category="k", override=True, **over))
+                            if o2[0] != "ok":
+                                continue
+                            du2 = db.GetDefaultUnit("k2")
+                            s2 = P.outcome(Scalar, "k2")
+                            cons.append({"op": "CatConsistent", "call": "AddCategory(from_category=<%r>, %r)" % (kw0, over), "du_registered": du2 in db.GetUnits("Q"),
+                                         "du_in_valid": True, "scalar_built": s2[0] == "ok", "scalar_valid": s2[0] == "ok" and bool(s2[1].IsValid()),
+                                         "scalar_unit_is_du": s2[0] == "ok" and s2[1].GetUnit() == du2,
+                                         "check_default": P.outcome(db.CheckCategoryUnit, "k2", du2)[0] == "ok"})
     finally:
         UnitDatabase.PopSingleton()
     common.judge_trace(rep, bd, cons, "categories registered with limits and valid units (legacy spellings first, base unit absent): consistent defaults", tag="consistent")
